@@ -292,22 +292,21 @@ Proof.
   destruct (a_end (data a) <? maxPages a) eqn:E1; destruct (a_end (data a) <? newMax) eqn:E2; lia.
 Qed.
 
-(* a former overflow area (meta pages past the old limit) is skipped: after the repair of D12 the grow
-   transaction moves the data end marker to min(meta end, new limit), so no page id of the overflow
-   area can come from the end of the data area *)
-Definition grow_data_end (oldMax newMax dataEnd metaEnd : Z) : Z :=
-  if (0 <? oldMax) && (oldMax <? metaEnd) && ((newMax =? 0) || (oldMax <? newMax))
-  then (if (0 <? newMax) && (newMax <? metaEnd) then newMax else metaEnd)
-  else dataEnd.
+(* a former overflow area (meta pages behind the data area, past the old limit) is skipped: after the repair of D12
+   the grow transaction moves the data end marker forward to min(meta end, new limit), so no page id of the overflow
+   area can come from the end of the data area; the marker is never moved back (D20: the first version of the
+   repair set it to that value unconditionally, below live data pages of a file that extends beyond the new
+   limit) *)
+(* grow_data_end: Model/Alloc.v *)
 
 Theorem grow_skips_overflow_area oldMax newMax dataEnd metaEnd id :
-  0 < oldMax -> dataEnd <= oldMax -> oldMax < metaEnd -> (newMax = 0 \/ oldMax < newMax) ->
-  oldMax <= id < metaEnd ->                        (* a page of the overflow area *)
+  0 < oldMax -> oldMax < metaEnd -> (newMax = 0 \/ oldMax < newMax) ->
+  dataEnd <= id < metaEnd ->                       (* a page behind the data area: the overflow area *)
   let e := grow_data_end oldMax newMax dataEnd metaEnd in
   (* pages handed out from the end of the data area have ids in [e, newMax) *)
   ~ (e <= id /\ (newMax = 0 \/ id < newMax)).
 Proof.
-  intros Hpos Hde Hov Hgrow Hid. unfold grow_data_end. cbn zeta.
+  intros Hpos Hov Hgrow Hid. unfold grow_data_end. cbn zeta.
   replace (0 <? oldMax) with true by lia. replace (oldMax <? metaEnd) with true by lia.
   destruct Hgrow as [->|Hg].
   - cbn. lia.
@@ -315,3 +314,17 @@ Proof.
     replace (0 <? newMax) with true by lia. cbn [andb].
     destruct (newMax <? metaEnd) eqn:E; lia.
 Qed.
+
+(* the data end marker never moves back: every live data page stays inside the data area *)
+Theorem grow_never_lowers oldMax newMax dataEnd metaEnd :
+  dataEnd <= grow_data_end oldMax newMax dataEnd metaEnd.
+Proof. unfold grow_data_end. destruct (_ && _ && _); lia. Qed.
+
+(* D20: the first version of the repair *)
+Definition grow_data_end_v1 (oldMax newMax dataEnd metaEnd : Z) : Z :=
+  if (0 <? oldMax) && (oldMax <? metaEnd) && ((newMax =? 0) || (oldMax <? newMax))
+  then (if (0 <? newMax) && (newMax <? metaEnd) then newMax else metaEnd)
+  else dataEnd.
+Theorem grow_v1_lowers_refuted : exists oldMax newMax dataEnd metaEnd,
+  0 < oldMax /\ oldMax < newMax /\ dataEnd <= metaEnd /\ grow_data_end_v1 oldMax newMax dataEnd metaEnd < dataEnd.
+Proof. exists 64, 100, 156, 156. vm_compute. repeat split; discriminate. Qed.
